@@ -271,12 +271,8 @@ pub fn stream(run: &mut Run, rng: &mut Rng, n: usize, focus: &str) {
                     if matches!(p.statement, Statement::Aggregate(_)) {
                         let last = sc.last().unwrap().clone();
                         let refreshed = sc.len() > 1;
-                        let csv_later = matches!(c.format, OutputFormat::CSV(_)) && sc.len() > 2;
                         if refreshed && last != want {
-                            // CSV: the one printer's header state survives the clears (finding D65)
-                            let headerless = csv_later && !want.is_empty() && last[..] == want[1..];
-                            let class = if headerless { "D65:follow-csv-header-only-on-first-screen" } else { "e2ef-final-screen-differs-from-batch" };
-                            run.fail(show(&c), class, format!("final screen {:?}; batch output over the {} complete lines {:?}", last, lines.len(), want));
+                            run.fail(show(&c), "e2ef-final-screen-differs-from-batch", format!("final screen {:?}; batch output over the {} complete lines {:?}", last, lines.len(), want));
                         }
                         if !sc[0].is_empty() { run.fail(show(&c), "e2ef-output-before-first-clear", format!("{:?}", sc[0])); }
                     } else {
